@@ -45,3 +45,13 @@ Example C02W_nonvacuous :
   (let W := wrun wops_demo winit in
    Rep (wmem (wa W)) (wfile (wa W)) (wpend (wa W)) /\ Rep (wmem (wb W)) (wfile (wb W)) (wpend (wb W))).
 Proof. split; [apply wops_demo_ok|]. split; [apply wops_demo_ok | exact wops_demo_rep]. Qed.
+
+(* the hypothesis "only dead groups are pending" met NON-trivially (audit 2, A15): B ends with the dead group (KG,7)
+   pending after a cross-workspace copy; the premises of C02_wclose_valid_partial are instantiated, its conclusion follows *)
+Example C02W_dead_group_pending :
+  wfresh_run wops_dead_group winit = true /\ wclean_run wops_dead_group winit = true /\
+  wpend (wb (wrun wops_dead_group winit)) = [(KG, 7%N)] /\
+  Valid (wfile (close_file (wsel true (wrun wops_dead_group winit)))).
+Proof.
+  split; [apply wops_dead_group_ok|]. split; [apply wops_dead_group_ok|]. split; [apply wops_dead_group_ok | exact wops_dead_group_valid].
+Qed.
